@@ -85,6 +85,8 @@ func evalCond(c *Cond, r srec) bool {
 		return r.FNR == c.N
 	case "nrge":
 		return r.NR >= c.N
+	case "nrmod":
+		return r.NR%c.N == c.M
 	case "not":
 		return !evalCond(c.A, r)
 	case "and":
@@ -97,7 +99,25 @@ func evalCond(c *Cond, r srec) bool {
 
 func nfOf(s string) int { return len(strings.Fields(s)) }
 
-// emitOnly: no BEGIN getline/control, every rule body only emits (the flat specification applies)
+// pureBody: the body consists of emits, conditionals, calls, counted loops and next / nextfile only — its effect on one
+// record is a function of the record (no getline, exit, ARGV edit, close)
+func pureBody(ops []Op) bool {
+	for _, o := range ops {
+		switch o.K {
+		case "e", "n", "nf":
+		case "i", "c", "l":
+			if !pureBody(o.Body) {
+				return false
+			}
+		default:
+			return false
+		}
+	}
+	return true
+}
+
+// emitOnly: the flat specification applies — BEGIN only emits / edits ARGV, END only emits, every rule body is pure, and a
+// range rule has no raising pattern expression (which of its two expressions is evaluated is the automaton's business)
 func emitOnly(cs *Case) bool {
 	only := func(ops []Op, allowArgv bool) bool {
 		for _, o := range ops {
@@ -111,18 +131,48 @@ func emitOnly(cs *Case) bool {
 	if !only(cs.Begin, true) || !only(cs.End, false) {
 		return false
 	}
-	hasRange, raises := false, false
 	for _, r := range cs.Rules {
-		if !only(r.Body, false) {
+		if !pureBody(r.Body) {
 			return false
 		}
-		hasRange = hasRange || r.Pat == "r"
-		raises = raises || r.Raise != ""
-	}
-	if raises && hasRange {
-		return false // which records reach a range rule then depends on the abandonments: left to correspondence
+		if r.Pat == "r" && r.Raise != "" {
+			return false
+		}
 	}
 	return len(cs.Rules) > 0 || cs.HasEnd
+}
+
+// evalBody: the events of a pure body on record r; returns 0 (fell through), 1 (next) or 2 (nextfile)
+func evalBody(ops []Op, r srec, parts *[]string) int {
+	for _, o := range ops {
+		switch o.K {
+		case "e":
+			*parts = append(*parts, fmtE(o.N, r))
+		case "n":
+			*parts = append(*parts, "X:1")
+			return 1
+		case "nf":
+			*parts = append(*parts, "X:2")
+			return 2
+		case "i":
+			if evalCond(o.C, r) {
+				if sg := evalBody(o.Body, r, parts); sg != 0 {
+					return sg
+				}
+			}
+		case "c":
+			if sg := evalBody(o.Body, r, parts); sg != 0 {
+				return sg
+			}
+		case "l":
+			for k := 0; k < o.N; k++ {
+				if sg := evalBody(o.Body, r, parts); sg != 0 {
+					return sg
+				}
+			}
+		}
+	}
+	return 0
 }
 
 // applyArgvEdits: ARGV/ARGC after BEGIN (array assignment semantics; missing elements read as "")
@@ -164,26 +214,23 @@ func flatExpected(cs *Case) (want string, fatal bool) {
 		}
 	}
 	recs, fatal, final := specStream(applyArgvEdits(cs), cs.Stdin, cs.Files)
-	// positional range selection
-	sel := make([][]bool, len(cs.Rules))
-	for k, rule := range cs.Rules {
-		if rule.Pat != "r" {
-			continue
-		}
-		sel[k] = make([]bool, len(recs))
-		for i := range recs {
-			for j := i; j >= 0; j-- {
-				if j < i && evalCond(rule.E, recs[j]) {
-					break // a record in j..i-1 satisfies e: no start at or before j reaches i
-				}
-				if evalCond(rule.B, recs[j]) {
-					sel[k][i] = true
-					break
-				}
+	// per range rule: the pattern values of the records that reached the rule so far (a record abandoned by an earlier rule
+	// does not reach it); selection is positional over that history: some j <= i satisfies b and nothing in j..i-1 satisfies e
+	type be struct{ b, e bool }
+	hist := make([][]be, len(cs.Rules))
+	selected := func(h []be) bool {
+		i := len(h) - 1
+		for j := i; j >= 0; j-- {
+			if j < i && h[j].e {
+				return false
+			}
+			if h[j].b {
+				return true
 			}
 		}
+		return false
 	}
-	skipFile := false // a pattern's function executed nextfile: the rest of this file is not delivered
+	skipFile := false // nextfile was executed: the rest of this file is not delivered
 	skipped := 0      // records not delivered so far (they do not count in NR)
 	var lastDelivered *srec
 	for i := range recs {
@@ -206,16 +253,19 @@ func flatExpected(cs *Case) (want string, fatal bool) {
 			case "p":
 				m = evalCond(rule.B, r)
 			case "r":
-				m = sel[k][i]
+				hist[k] = append(hist[k], be{evalCond(rule.B, r), evalCond(rule.E, r)})
+				m = selected(hist[k])
 			}
 			if !m {
 				continue
 			}
 			if rule.NoBody {
 				parts = append(parts, "P:"+vh.HxS(r.Line))
+				continue
 			}
-			for _, o := range rule.Body {
-				parts = append(parts, fmtE(o.N, r))
+			if sg := evalBody(rule.Body, r, &parts); sg != 0 {
+				skipFile = sg == 2
+				break
 			}
 		}
 	}
